@@ -57,9 +57,11 @@ Hypothesis Hraw : forall x, in_raw (td_warps td) x <-> exists s e, In (s, e) seg
 
 Variables s e : Q.
 Hypothesis Hseg : In (s, e) segs.
-Hypothesis Hs0 : 0 < s.
 (* no stop or delay on a beat of the segment, its end included *)
 Hypothesis Hnopause : forall r, In r (td_stops td) \/ In r (td_delays td) -> ~ (s <= fst r /\ fst r <= e).
+
+Lemma Hs_nonneg : 0 <= s.
+Proof. exact (events_nonneg td D (mkW s) (HinW s e Hseg)). Qed.
 
 Lemma Hse : s <= e.
 Proof. apply (sp_le _ Hsp s e Hseg). Qed.
@@ -109,7 +111,7 @@ Lemma decomposition : exists P Mid Re,
   (forall r, In r Re -> e < e_beat r) /\
   prior (sts td v0) s0 e tBPM = St' (P ++ mkW s :: Mid).
 Proof.
-  pose proof Hse as Hse'.
+  pose proof Hse as Hse'. pose proof Hs_nonneg as Hs0'.
   destruct (prior_cut td v0 D e tBPM) as (Pe & Re & E & HPe & HRe & Hprior); [lra|unfold tBPM; lia|]. fold es in E.
   assert (HWin : In (mkW s) Pe).
   { pose proof (HinW s e Hseg) as H. rewrite E in H. apply in_app_or in H as [H|H]; [exact H|]. exfalso.
@@ -204,9 +206,9 @@ Proof.
   split; [exact I1|split; [exact Hw|]]. destruct I2 as [W|B]; [congruence|exact B].
 Qed.
 
-Lemma before_warp : s_time (St' P) < Tw.
+Lemma before_warp : (P = [] -> 0 < s) -> s_time (St' P) < Tw.
 Proof.
-  pose proof Hse as Hse'.
+  intro Hs0. pose proof Hse as Hse'.
   unfold Tw, sW. rewrite (step_time td b0 v0 rest D Hbpm P (mkW s) (Mid ++ Re) E). cbn [mkW e_tag e_beat]. change (is_end_tag tWARP) with false. cbv iota.
   assert (Hw : s_warp (St' P) = false).
   { destruct (s_warp (St' P)) eqn:W; [|reflexivity]. exfalso. unfold St in W. rewrite warp_fold in W. cbn [init_state s_warp] in W.
@@ -220,7 +222,7 @@ Proof.
     pose proof (HinWE s' e' Hin) as Hin'. rewrite E in Hin'. apply in_app_or in Hin' as [X|[X|X]]; [exact X|discriminate X|].
     exfalso. specialize (SR _ X). apply ev_lt_spec in SR. cbn [mkW mkWE e_beat e_tag] in SR. destruct SR as [Y|[Y _]]; lra. }
   assert (Hb : s_beat (St' P) < s).
-  { destruct P as [|p0 P0] eqn:EP; [unfold St, init_state; simpl; exact Hs0|].
+  { destruct P as [|p0 P0] eqn:EP; [unfold St, init_state; simpl; apply Hs0; reflexivity|].
     destruct (last_of_nonempty (p0 :: P0)) as (P' & q & EPq); [discriminate|]. rewrite EPq in *. rewrite St_last. cbn [advance s_beat].
     destruct (split_strict td D (P' ++ [q]) (mkW s) (Mid ++ Re) E) as (SP & _ & _).
     assert (Hqin : In q (P' ++ [q])) by (apply in_or_app; right; left; reflexivity).
@@ -257,9 +259,9 @@ Proof.
     specialize (Hall x Hx). cbv beta in Hall. lra.
 Qed.
 
-Lemma before_segment : forall x, In x (run_states s0 P) -> s_time x < Tw.
+Lemma before_segment : (P = [] -> 0 < s) -> forall x, In x (run_states s0 P) -> s_time x < Tw.
 Proof.
-  intros x Hx. pose proof before_warp as HP.
+  intros Hs0 x Hx. pose proof (before_warp Hs0) as HP.
   pose proof (states_monotone td (sts td v0) D (states_is_sts td b0 v0 rest Hbpm Hb0)) as S.
   unfold sts in S. fold es in S. rewrite E, run_states_app in S. fold s0 in S.
   rewrite (run_states_last P s0) in Hx. apply in_app_or in Hx as [Hx|[<-|[]]]; [|exact HP].
@@ -296,18 +298,45 @@ Proof.
   destruct (HMid z Hz) as [->|T]; [left; reflexivity|right; exact T].
 Qed.
 
+(* a segment that starts on beat 0: no event precedes its WARP event, and the initial state shares its time *)
+Lemma start_cases : (P = [] -> 0 < s) \/ (P = [] /\ s == 0).
+Proof.
+  pose proof Hs_nonneg as H0. destruct (Nat.eq_dec (length P) 0) as [L|L].
+  - apply length_zero_iff_nil in L. destruct (Qlt_le_dec 0 s) as [X|X]; [left; intros _; exact X|right; split; [exact L|lra]].
+  - left. intro X. rewrite X in L. simpl in L. congruence.
+Qed.
+
+Lemma at_zero : P = [] -> s == 0 -> s_time s0 == Tw /\ run_states s0 P = [s0].
+Proof.
+  intros EP Es. split; [|rewrite EP; reflexivity].
+  unfold Tw, sW. rewrite (step_time td b0 v0 rest D Hbpm P (mkW s) (Mid ++ Re) E). cbn [mkW e_tag e_beat]. change (is_end_tag tWARP) with false. cbv iota.
+  rewrite EP. unfold St. cbn [fold_left]. fold s0. cbn [s0 init_state s_beat]. rewrite Es. ring_simplify. reflexivity.
+Qed.
+
 (* the WARP tag stops where the segment starts ... *)
 Theorem elapse_warp_tag d : fst (beat_at_raw (sts td v0) d Tw tWARP) == s.
 Proof.
   rewrite sts_split.
   assert (Er : run_states sW Mid = [] ++ sW :: tl (run_states sW Mid)) by (generalize Mid; intros [|? ?]; reflexivity).
-  rewrite Er. rewrite (beat_at_on_state_time (run_states s0 P) [] sW (tl (run_states sW Mid)) (tl (run_states (St' Pe) Re)) d Tw tWARP).
-  - unfold sW. rewrite St_last. reflexivity.
-  - apply before_segment.
-  - intros y Hy. apply run_times. rewrite Er. exact Hy.
-  - apply after_segment.
-  - unfold sW. rewrite St_last. cbn [advance s_tag mkW e_tag]. lia.
-  - intros y Hy. destruct (run_tags y Hy) as [T|T]; rewrite T; unfold tWARP, tWARP_END, tBPM; lia.
+  destruct start_cases as [Hs0|[EP Es]].
+  - rewrite Er. rewrite (beat_at_on_state_time (run_states s0 P) [] sW (tl (run_states sW Mid)) (tl (run_states (St' Pe) Re)) d Tw tWARP).
+    + unfold sW. rewrite St_last. reflexivity.
+    + apply before_segment. exact Hs0.
+    + intros y Hy. apply run_times. rewrite Er. exact Hy.
+    + apply after_segment.
+    + unfold sW. rewrite St_last. cbn [advance s_tag mkW e_tag]. lia.
+    + intros y Hy. destruct (run_tags y Hy) as [T|T]; rewrite T; unfold tWARP, tWARP_END, tBPM; lia.
+  - destruct (at_zero EP Es) as [T0 R0]. rewrite R0.
+    assert (Er2 : [s0] ++ run_states sW Mid ++ tl (run_states (St' Pe) Re) =
+                  [] ++ ([s0] ++ sW :: tl (run_states sW Mid)) ++ tl (run_states (St' Pe) Re)).
+    { rewrite Er at 1. cbn [app]. reflexivity. }
+    rewrite Er2. rewrite (beat_at_on_state_time [] [s0] sW (tl (run_states sW Mid)) (tl (run_states (St' Pe) Re)) d Tw tWARP).
+    + unfold sW. rewrite St_last. reflexivity.
+    + intros y [].
+    + intros y Hy. cbn [app] in Hy. destruct Hy as [<-|Hy]; [exact T0|]. apply run_times. rewrite Er. exact Hy.
+    + apply after_segment.
+    + unfold sW. rewrite St_last. cbn [advance s_tag mkW e_tag]. lia.
+    + intros y Hy. destruct (run_tags y Hy) as [T|T]; rewrite T; unfold tWARP, tWARP_END, tBPM; lia.
 Qed.
 
 (* ... and the default goes on to where it ends *)
@@ -316,17 +345,30 @@ Proof.
   rewrite sts_split. destruct Pe_state as (PT & PW & PB).
   assert (Ef : fold_left advance Mid sW = St' Pe) by (unfold sW, Pe, St; rewrite <- fold_left_app, <- app_assoc; reflexivity).
   assert (Er : run_states sW Mid = removelast (run_states sW Mid) ++ St' Pe :: []) by (rewrite (run_states_last Mid sW) at 1; rewrite Ef; reflexivity).
-  rewrite Er. rewrite (beat_at_on_state_time (run_states s0 P) (removelast (run_states sW Mid)) (St' Pe) [] (tl (run_states (St' Pe) Re)) d Tw tSTOP).
-  - exact PB.
-  - apply before_segment.
-  - intros y Hy. apply run_times. rewrite Er. exact Hy.
-  - apply after_segment.
-  - (* the last state of the run is the segment's end or a BPM change on its end beat *)
-    assert (Hl : In (St' Pe) (tl (run_states sW Mid))).
-    { rewrite <- Ef. clear -HWEin. revert HWEin. generalize Mid. intros [|m0 M'] H; [destruct H|]. cbn [run_states tl fold_left].
-      rewrite (run_states_last M' (advance sW m0)). apply in_or_app. right. left. reflexivity. }
-    destruct (run_tags _ Hl) as [T|T]; rewrite T; unfold tSTOP, tWARP_END, tBPM; lia.
-  - intros y [].
+  (* the last state of the run is the segment's end or a BPM change on its end beat *)
+  assert (Hl : In (St' Pe) (tl (run_states sW Mid))).
+  { rewrite <- Ef. clear -HWEin. revert HWEin. generalize Mid. intros [|m0 M'] H; [destruct H|]. cbn [run_states tl fold_left].
+    rewrite (run_states_last M' (advance sW m0)). apply in_or_app. right. left. reflexivity. }
+  assert (Htag : (s_tag (St' Pe) <= tSTOP)%Z) by (destruct (run_tags _ Hl) as [T|T]; rewrite T; unfold tSTOP, tWARP_END, tBPM; lia).
+  destruct start_cases as [Hs0|[EP Es]].
+  - rewrite Er. rewrite (beat_at_on_state_time (run_states s0 P) (removelast (run_states sW Mid)) (St' Pe) [] (tl (run_states (St' Pe) Re)) d Tw tSTOP).
+    + exact PB.
+    + apply before_segment. exact Hs0.
+    + intros y Hy. apply run_times. rewrite Er. exact Hy.
+    + apply after_segment.
+    + exact Htag.
+    + intros y [].
+  - destruct (at_zero EP Es) as [T0 R0]. rewrite R0.
+    assert (Er2 : [s0] ++ run_states sW Mid ++ tl (run_states (St' Pe) Re) =
+                  [] ++ ((s0 :: removelast (run_states sW Mid)) ++ St' Pe :: []) ++ tl (run_states (St' Pe) Re)).
+    { rewrite Er at 1. cbn [app]. reflexivity. }
+    rewrite Er2. rewrite (beat_at_on_state_time [] (s0 :: removelast (run_states sW Mid)) (St' Pe) [] (tl (run_states (St' Pe) Re)) d Tw tSTOP).
+    + exact PB.
+    + intros y [].
+    + intros y Hy. cbn [app] in Hy. destruct Hy as [<-|Hy]; [exact T0|]. apply run_times. rewrite Er. exact Hy.
+    + apply after_segment.
+    + exact Htag.
+    + intros y [].
 Qed.
 
 (* the time in question is the time the engine assigns to the segment's end beat *)
@@ -353,12 +395,12 @@ End Elapse.
 Theorem warp_elapse_td td b0 v0 rest : dom td -> td_bpms td = (b0, v0) :: rest -> b0 == 0 ->
   exists segs : list (Q * Q),
     (forall x, in_raw (td_warps td) x <-> exists s e, In (s, e) segs /\ s <= x /\ x < e) /\
-    forall s e d, In (s, e) segs -> 0 < s ->
+    forall s e d, In (s, e) segs ->
       (forall r, In r (td_stops td) \/ In r (td_delays td) -> ~ (s <= fst r /\ fst r <= e)) ->
       let T := time_at (sts td v0) (init_state td v0) e tBPM in
       fst (beat_at_raw (sts td v0) d T tWARP) == s /\ fst (beat_at_raw (sts td v0) d T tSTOP) == e.
 Proof.
   intros D Hbpm Hb0. destruct (warp_segments td D) as (segs & Hsp & HW & HWE & HinW & HinWE & Hraw).
-  exists segs. split; [exact Hraw|]. intros s e d Hseg Hs0 Hnp.
-  apply (warp_elapse td b0 v0 rest D Hbpm Hb0 segs Hsp HW HWE HinW HinWE Hraw s e Hseg Hs0 Hnp d).
+  exists segs. split; [exact Hraw|]. intros s e d Hseg Hnp.
+  apply (warp_elapse td b0 v0 rest D Hbpm Hb0 segs Hsp HW HWE HinW HinWE Hraw s e Hseg Hnp d).
 Qed.
